@@ -164,7 +164,7 @@ def run(ctx):
                                                   "case": prob["tag"], "run": prob["run"]}))
     out.coverage.update(tot)
     out.coverage.update({"distinct_opcode_x_scope_depth_states": len(states),
-                         "distinct_opcodes_executed": [tracecheck.OPNAMES[o] for o in sorted(opcodes)],
+                         "distinct_opcodes_executed": [tracecheck.opname(o) for o in sorted(opcodes)],
                          "corpus_programs_traced": corpus_runs, "programs_skipped(rejected/long-running)": skipped})
     out.rule = ("traced executions of: systematic skeletons (constructs nested 2%s levels x break/continue/return, "
                 "from-loop matrix) and seeded random programs (depth<=4), each once per driver outcome vector (<=%d "
